@@ -1,42 +1,33 @@
-"""Per-property configuration of ./check."""
-import os, subprocess, sys
+"""Per-property configuration of ./check: one file per property in lib/props.d/Cxx.py defining PROP and META."""
+import glob, importlib.util, os, sys
+
+HERE = os.path.dirname(os.path.abspath(__file__))
 
 COMMON_TB = [
-    "Coq 8.16.1 kernel (coqc, full .vo build; thorough tier re-checks with coqchk); no native_compute; vm_compute only in Examples, refutation witnesses and the in-Coq evaluation of the model on harness cases",
-    "Tier A: constants in coq/gen/Consts.v are printed by a Go program linked against /repo on every run (harness/constdump.go); functions in coq/gen/Pure.v are translated from /repo's source by go2coq on every run",
+    "Coq 8.16.1 kernel (coqc, full .vo build; thorough tier re-checks with coqchk); no native_compute; vm_compute only in Examples, refutation witnesses, finite sweeps and the in-Coq evaluation of the model on harness cases",
+    "Tier A: constants in coq/gen/Consts.v are printed by a Go program linked against /repo on every run (harness/cmd/constdump); functions in coq/gen/Pure.v are translated from /repo's source by go2coq on every run",
     "Tier B: hand-written Gallina model, tied to /repo by the correspondence check (Go harness runs the real code, the model is evaluated inside Coq by vm_compute on the same inputs, outputs compared)",
     "Go harness generators/canonicalisers and the Go property oracle (used only to search for a failing input)",
 ]
 
-def P(**kw):
-    kw.setdefault("allowed_axioms", [])
-    kw["trusted_base"] = COMMON_TB + kw.get("trusted_base", [])
-    return kw
-
-PROPS = {}
-
-PROPS["C12"] = P(
-    props="Props/C12.v",
-    tie={"modules": ["TieC12"],
-         "fns": {"pow_check": ("pow_check_run", "pow_check_eqb", "(Z * bytes) * (bytes * bool)"),
-                 "plasma_check": ("plasma_check_run", "plasma_check_eqb", "plasma_in * plasma_out")}},
-    suites=[{"name": "pow", "n": {"quick": 4000, "thorough": 60000}},
-            {"name": "plasma", "n": {"quick": 12, "thorough": 150}}],
-    rule="pow: difficulties from boundary classes (0..3, 2^k-1..2^k+1, 2^63+-2, 2^64-3.., around MaxDifficulty, random over the full range) x random nonces with the real SHA3 digest, plus crafted digests at threshold-2..threshold+2 through the real comparison; "
-         "plasma: histories on a real node, candidate user sends with fused plasma in {0, base-1, base, avail, avail+1, cap+-1, random} x difficulty {0, valid PoW, claimed without work}; a case is distinct by (function, input); non-trivial = not tagged trivial",
-    explanation="Theorems: the byte comparison is numeric >=; CheckPoWNonce accepts iff digest >= 2^64 - floor(2^64/d) for every d in [1,2^64); an accepted block has base <= total = fused + powPlasma <= cap and fused <= plasma(fused QSR) - plasma of unconfirmed blocks; by induction over any candidate sequence the pool never over-commits. "
-                "Modelled: pow.getTargetByDifficulty/greaterDifficulty/CheckPoWNonce, vm.DifficultyToPlasma/FussedAmountToPlasma/AvailablePlasma/enoughPlasma, account.AddChainPlasma, verifier pow(). SHA3 and the base-plasma lookup (method table) enter as observed inputs.",
-    assumptions=["SHA3-256 digest is an input of the model (real digests are fed by the harness)",
-                 "base plasma of the block (data length / embedded method table) is read from the implementation and passed to the model",
-                 "0 <= committed <= uncommitted chain plasma (an invariant of the account store, checked on every observed state)"],
-)
+PROPS, META = {}, {}
+for f in sorted(glob.glob(os.path.join(HERE, "props.d", "C*.py"))):
+    spec = importlib.util.spec_from_file_location("propsd_" + os.path.basename(f)[:-3], f)
+    m = importlib.util.module_from_spec(spec)
+    spec.loader.exec_module(m)
+    pid = os.path.basename(f)[:-3]
+    cfg = dict(m.PROP)
+    cfg.setdefault("allowed_axioms", [])
+    cfg["trusted_base"] = COMMON_TB + cfg.get("trusted_base", [])
+    PROPS[pid] = cfg
+    META[pid] = m.META
 
 def setup():
-    here = os.path.dirname(os.path.dirname(os.path.abspath(__file__)))
-    sys.path.insert(0, os.path.join(here, "lib"))
+    sys.path.insert(0, HERE)
     import driver
     log = []
-    ok, out = driver.build_go(log)
+    bins = sorted(set(su["bin"] for c in PROPS.values() for su in c["suites"]))
+    ok, out = driver.build_go(log, bins)
     if not ok:
         print(out); return 1
     probs = driver.regen(log)
